@@ -538,6 +538,21 @@ Proof.
   exists witness_body_malformed. rewrite <- noninterferenceb_spec. vm_compute. discriminate.
 Qed.
 
+(* each repair is needed on its own: with only the other one in place the statement still fails *)
+Lemma without_hex_repair_refuted : exists h, ~ noninterference (run only_body_repair h).
+Proof.
+  exists witness_not_hex. rewrite <- noninterferenceb_spec. vm_compute. discriminate.
+Qed.
+
+Lemma without_body_repair_refuted : exists h, ~ noninterference (run only_hex_repair h).
+Proof.
+  exists witness_body_malformed. rewrite <- noninterferenceb_spec. vm_compute. discriminate.
+Qed.
+
+(* the code as it is now: the full statement, every history over the whole fault alphabet *)
+Theorem noninterference_current : forall h, noninterference (run current h).
+Proof. exact noninterference_repaired. Qed.
+
 Lemma witnesses_in_class :
   KnownClass_host_key_not_hex unfixed witness_not_hex = true
   /\ KnownClass_host_key_body_malformed unfixed witness_not_hex = false
